@@ -31,9 +31,23 @@ type GV struct {
 // DigitV is a small signed integer given as a polynomial in digit symbols.
 type DigitV struct{ P *poly.Poly }
 
+// DCmp is a comparison of a digit with zero (data-dependent control in the VarTime drivers).
+type DCmp struct {
+	P  *poly.Poly
+	Op token.Token
+}
+
+type digitAssume struct {
+	key   string
+	op    token.Token
+	truth bool
+	v     string // the single digit variable, if the digit is ±one variable
+}
+
 type GroupDom struct {
-	R     *poly.Ring
-	Notes []string
+	R      *poly.Ring
+	assume []digitAssume
+	Notes  []string
 	// DigitBound: assumed range of signed radix-16 digits (established separately)
 	Prims map[string]bool
 }
@@ -122,7 +136,14 @@ func (g *GV) String() string {
 }
 
 func (d *GroupDom) BinOp(in *Interp, op token.Token, x, y Val, xt types.Type, pos ssa.Instruction) Val {
-	// -digit (unary minus is UnOp); digit comparisons are data-dependent control flow
+	if dv, ok := x.(DigitV); ok {
+		if c, ok := y.(Int); ok && c.V.Sign() == 0 {
+			switch op {
+			case token.GTR, token.LSS, token.NEQ, token.EQL, token.GEQ, token.LEQ:
+				return DCmp{P: dv.P, Op: op}
+			}
+		}
+	}
 	in.Undecided(pos, "group domain: %T %s %T (a data-dependent operation on digits or points is outside the recognised primitives)", x, op, y)
 	return nil
 }
@@ -227,6 +248,38 @@ func (d *GroupDom) Call(in *Interp, site ssa.Instruction, fn *ssa.Function, args
 			a.Elems[i] = d.Digit(fmt.Sprintf("%s.d%d", nm, i))
 		}
 		return []Val{a}, true
+	case "(*Scalar).nonAdjacentForm":
+		ptr, _ := args[0].(Ptr)
+		nm := "k"
+		if ptr.Obj != nil {
+			nm = ptr.Obj.Name
+		}
+		a := &Agg{Elems: make([]Val, 256)}
+		for i := range a.Elems {
+			a.Elems[i] = d.Digit(fmt.Sprintf("%s.n%d", nm, i))
+		}
+		return []Val{a}, true
+	case "(*nafLookupTable5).SelectInto", "(*nafLookupTable8).SelectInto":
+		dv, isDigit := args[2].(DigitV)
+		if !isDigit {
+			return nil, false
+		}
+		// contract (SELECT/TABLE obligations): for odd 0 < x < 2^(w−1) the result is entry x/2 = x·points[0],
+		// provided points[i] = (2i+1)·points[0]
+		tab := in.Load(site, args[0])
+		arr := tab.(*Agg).Elems[0].(*Agg)
+		base, ok := arr.Elems[0].(*GV)
+		if !ok || base.Invalid {
+			in.Undecided(site, "%s on a table that was never built", name)
+		}
+		for i, e := range arr.Elems {
+			g, ok := e.(*GV)
+			if !ok || !g.Equal(d.scale(base, d.R.Int(int64(2*i+1)))) {
+				in.Undecided(site, "%s: table entry %d is %v, not %d·(entry 0)", name, i, e, 2*i+1)
+			}
+		}
+		in.Store(site, args[1], d.scale(base, dv.P))
+		return nil, true
 	case "(*projLookupTable).SelectInto", "(*affineLookupTable).SelectInto":
 		dv, isDigit := args[2].(DigitV)
 		if !isDigit {
@@ -259,4 +312,119 @@ func (d *GroupDom) DigitSum(name string, n int) *poly.Poly {
 		s = s.Add(d.R.Var(fmt.Sprintf("%s.d%d", name, i)).Scale(new(big.Int).Lsh(big.NewInt(1), uint(4*i))))
 	}
 	return s
+}
+
+// ---- joins at data-dependent branches on digits (MergeDomain) ------------------------
+
+func (d *GroupDom) Mergeable(in *Interp, cond Val, site *ssa.If) bool {
+	_, ok := cond.(DCmp)
+	return ok
+}
+
+func (d *GroupDom) EnterSide(in *Interp, cond Val, truth bool) {
+	c := cond.(DCmp)
+	a := digitAssume{key: c.P.Key(), op: c.Op, truth: truth}
+	if vs := c.P.Vars(); len(vs) == 1 && (c.P.Equal(d.R.Var(vs[0])) || c.P.Equal(d.R.Var(vs[0]).Neg())) {
+		a.v = vs[0]
+		if c.P.Equal(d.R.Var(vs[0]).Neg()) {
+			// −x compared with 0: mirror the ordering
+			switch c.Op {
+			case token.GTR:
+				a.op = token.LSS
+			case token.LSS:
+				a.op = token.GTR
+			case token.GEQ:
+				a.op = token.LEQ
+			case token.LEQ:
+				a.op = token.GEQ
+			}
+		}
+	}
+	d.assume = append(d.assume, a)
+}
+
+func (d *GroupDom) LeaveSide(in *Interp) { d.assume = d.assume[:len(d.assume)-1] }
+
+// zeroDigits: digit variables forced to 0 by a set of assumptions.
+func zeroDigits(as []digitAssume) map[string]bool {
+	type st struct{ notPos, notNeg bool }
+	m := map[string]*st{}
+	z := map[string]bool{}
+	for _, a := range as {
+		if a.v == "" {
+			continue
+		}
+		s := m[a.v]
+		if s == nil {
+			s = &st{}
+			m[a.v] = s
+		}
+		switch {
+		case a.op == token.EQL && a.truth, a.op == token.NEQ && !a.truth:
+			z[a.v] = true
+		case a.op == token.GTR && !a.truth, a.op == token.LEQ && a.truth:
+			s.notPos = true
+		case a.op == token.LSS && !a.truth, a.op == token.GEQ && a.truth:
+			s.notNeg = true
+		}
+		if s.notPos && s.notNeg {
+			z[a.v] = true
+		}
+	}
+	return z
+}
+
+func (d *GroupDom) substZero(g *GV, zero map[string]bool) *GV {
+	if g.Invalid || len(zero) == 0 {
+		return g
+	}
+	r := d.Zero()
+	for k, c := range g.Terms {
+		p := c.WithoutVars(zero)
+		if !p.IsZero() {
+			r.Terms[k] = p
+		}
+	}
+	return r
+}
+
+func (d *GroupDom) JoinAtoms(in *Interp, cond Val, t, f Val) Val {
+	c, _ := cond.(DCmp)
+	mk := func(truth bool) map[string]bool {
+		as := append([]digitAssume{}, d.assume...)
+		if c.P != nil {
+			d.EnterSide(in, cond, truth)
+			as = append(as, d.assume[len(d.assume)-1])
+			d.LeaveSide(in)
+		}
+		return zeroDigits(as)
+	}
+	zt, zf := mk(true), mk(false)
+	switch x := t.(type) {
+	case *GV:
+		y, ok := f.(*GV)
+		if !ok {
+			return &GV{Invalid: true}
+		}
+		switch {
+		case x.Invalid || y.Invalid:
+			return &GV{Invalid: true}
+		case x.Equal(y):
+			return x
+		case d.substZero(x, zf).Equal(y):
+			return x // the true-side value also describes the false side, where those digits are 0
+		case d.substZero(y, zt).Equal(x):
+			return y
+		}
+		return &GV{Invalid: true}
+	case DigitV:
+		if y, ok := f.(DigitV); ok && x.P.Equal(y.P) {
+			return x
+		}
+	case DCmp:
+		if y, ok := f.(DCmp); ok && x.Op == y.Op && x.P.Equal(y.P) {
+			return x
+		}
+	}
+	return Top{"joined values differ"}
 }
